@@ -112,6 +112,10 @@ type vfRedisFront struct {
 	ln   net.Listener
 	mu   sync.Mutex
 	cs   map[net.Conn]bool
+	// resp2Only: HELLO is refused so that go-redis stays on RESP2 (the cluster and sentinel client builders of
+	// oauth2-proxy ignore the protocol=2 parameter of the connection URL); set by ClusterFlags / SentinelFlags
+	resp2Only bool
+	sentinel  *vfSentinel
 }
 
 func (h *vfRedisHub) Front(inst int) *vfRedisFront {
@@ -152,6 +156,8 @@ func (f *vfRedisFront) URL(params string) string {
 func (f *vfRedisFront) close() {
 	_ = f.ln.Close()
 	f.mu.Lock()
+	// the fake sentinel stays up until the process ends: the failover clients of abandoned instances keep their
+	// subscription open and would re-dial in a loop otherwise
 	for c := range f.cs {
 		_ = c.Close()
 	}
@@ -294,6 +300,21 @@ func (f *vfRedisFront) handle(c net.Conn) {
 		if err != nil {
 			return
 		}
+		if len(args) > 0 {
+			// topology / handshake commands answered by the front itself: never logged, never faulted
+			switch verb := strings.ToUpper(args[0]); {
+			case verb == "HELLO" && f.isResp2Only():
+				if _, err := c.Write([]byte("-ERR unknown command 'hello'\r\n")); err != nil {
+					return
+				}
+				continue
+			case verb == "CLUSTER" && len(args) > 1 && strings.EqualFold(args[1], "SLOTS"):
+				if _, err := c.Write(f.clusterSlots()); err != nil {
+					return
+				}
+				continue
+			}
+		}
 		op, key := vfRedisClassify(args)
 		targs := make([]string, len(args))
 		for i, a := range args {
@@ -391,6 +412,153 @@ func (f *vfRedisFront) handle(c net.Conn) {
 		}
 		h.setReply(cmd, vfTrunc(strings.SplitN(string(rep), "\r\n", 2)[0], 40))
 		if _, err := c.Write(rep); err != nil {
+			return
+		}
+	}
+}
+
+// ---------------------------------------------------------------------------------------------------------------
+// Cluster and Sentinel topologies: oauth2-proxy builds a different go-redis client (and, for the cluster, a different
+// wrapper type: clusterClient) for --redis-use-cluster / --redis-use-sentinel. The front poses as a one-node cluster
+// (CLUSTER SLOTS names the front itself for all 16384 slots) or as the master a fake sentinel points to, so that every
+// session command still crosses the front and can be recorded, faulted and gated.
+
+func (f *vfRedisFront) isResp2Only() bool { f.mu.Lock(); defer f.mu.Unlock(); return f.resp2Only }
+
+func (f *vfRedisFront) clusterSlots() []byte {
+	host, port, _ := net.SplitHostPort(f.Addr())
+	id := fmt.Sprintf("%040d", f.Inst)
+	return []byte(fmt.Sprintf("*1\r\n*3\r\n:0\r\n:16383\r\n*3\r\n$%d\r\n%s\r\n:%s\r\n$%d\r\n%s\r\n", len(host), host, port, len(id), id))
+}
+
+// ClusterFlags: flags that make an instance use the Redis Cluster client against this front.
+func (f *vfRedisFront) ClusterFlags() []string {
+	f.mu.Lock()
+	f.resp2Only = true
+	f.mu.Unlock()
+	return []string{"--redis-use-cluster=true", "--redis-cluster-connection-urls=redis://" + f.Addr()}
+}
+
+// SentinelFlags: flags that make an instance use the Sentinel (failover) client; a fake sentinel names this front as master.
+func (f *vfRedisFront) SentinelFlags() []string {
+	f.mu.Lock()
+	f.resp2Only = true
+	if f.sentinel == nil {
+		f.sentinel = vfNewSentinel("vfmaster", f.Addr())
+	}
+	s := f.sentinel
+	f.mu.Unlock()
+	return []string{"--redis-use-sentinel=true", "--redis-sentinel-master-name=vfmaster", "--redis-sentinel-connection-urls=redis://" + s.Addr()}
+}
+
+// ModeFlags: "standalone" (connection URL with params), "cluster" or "sentinel".
+func (f *vfRedisFront) ModeFlags(mode, params string) []string {
+	switch mode {
+	case "cluster":
+		return f.ClusterFlags()
+	case "sentinel":
+		return f.SentinelFlags()
+	}
+	return []string{"--redis-connection-url=" + f.URL(params)}
+}
+
+// vfSentinel: the part of the Sentinel protocol go-redis' failover client uses (get-master-addr-by-name, sentinels,
+// SUBSCRIBE +switch-master with keep-alive PINGs). The master never changes.
+type vfSentinel struct {
+	name, target string
+	ln           net.Listener
+	mu           sync.Mutex
+	cs           map[net.Conn]bool
+	queries      int
+}
+
+func vfNewSentinel(name, target string) *vfSentinel {
+	ln, err := net.Listen("tcp", "127.0.0.1:0")
+	if err != nil {
+		panic(err)
+	}
+	s := &vfSentinel{name: name, target: target, ln: ln, cs: map[net.Conn]bool{}}
+	go func() {
+		for {
+			c, err := ln.Accept()
+			if err != nil {
+				return
+			}
+			s.mu.Lock()
+			s.cs[c] = true
+			s.mu.Unlock()
+			go s.handle(c)
+		}
+	}()
+	return s
+}
+
+func (s *vfSentinel) Addr() string { return s.ln.Addr().String() }
+func (s *vfSentinel) Queries() int { s.mu.Lock(); defer s.mu.Unlock(); return s.queries }
+func (s *vfSentinel) Close() {
+	_ = s.ln.Close()
+	s.mu.Lock()
+	for c := range s.cs {
+		_ = c.Close()
+	}
+	s.mu.Unlock()
+}
+
+func (s *vfSentinel) handle(c net.Conn) {
+	defer func() {
+		_ = c.Close()
+		s.mu.Lock()
+		delete(s.cs, c)
+		s.mu.Unlock()
+	}()
+	br := bufio.NewReader(c)
+	subscribed := 0
+	bulk := func(v string) string { return fmt.Sprintf("$%d\r\n%s\r\n", len(v), v) }
+	for {
+		args, _, err := vfRespReadCmd(br)
+		if err != nil || len(args) == 0 {
+			return
+		}
+		var rep string
+		switch strings.ToUpper(args[0]) {
+		case "HELLO":
+			rep = "-ERR unknown command 'hello'\r\n"
+		case "CLIENT", "AUTH":
+			rep = "+OK\r\n"
+		case "PING":
+			if subscribed > 0 {
+				rep = "*2\r\n" + bulk("pong") + bulk("")
+			} else {
+				rep = "+PONG\r\n"
+			}
+		case "SUBSCRIBE":
+			for _, ch := range args[1:] {
+				subscribed++
+				rep += "*3\r\n" + bulk("subscribe") + bulk(ch) + fmt.Sprintf(":%d\r\n", subscribed)
+			}
+		case "SENTINEL":
+			sub := ""
+			if len(args) > 1 {
+				sub = strings.ToLower(args[1])
+			}
+			switch sub {
+			case "get-master-addr-by-name":
+				if len(args) > 2 && args[2] == s.name {
+					host, port, _ := net.SplitHostPort(s.target)
+					rep = "*2\r\n" + bulk(host) + bulk(port)
+					s.mu.Lock()
+					s.queries++
+					s.mu.Unlock()
+				} else {
+					rep = "*-1\r\n"
+				}
+			default: // sentinels, replicas, masters: nothing else to report
+				rep = "*0\r\n"
+			}
+		default:
+			rep = "-ERR unknown command\r\n"
+		}
+		if _, err := c.Write([]byte(rep)); err != nil {
 			return
 		}
 	}
